@@ -97,6 +97,26 @@ def check(repo: Repo) -> Result:
         if sym == "*":
             res.check(not asym, f"{dunder}:table-commutes", fn.where(), "u * v and v * u are equal units (same offset; equality reads scale, offset, dimension)" + (f" - {asym[0]}" if asym else ""), found=asym[:3], rid=r1)
 
+    # sibling agreement over every in-package construction of a Unit from explicit values: scale, offset, dimension and
+    # registry travel together.  A site that passes the scale but leaves one of the others out gets the constructor's
+    # default for it (offset 0.0, default registry) - the unit then no longer equals the one it was derived from.
+    CTOR_EXCEPT = {"Unit.__pow__": {"base_offset": "powers of offset units are refused before the constructor is reached (C08-R2), every other unit has offset 0"}}
+    n_sites = 0
+    for mod_ in repo.mods(only_anchor=False):
+        for q_, fns_ in mod_.funcs.items():
+            for f_ in fns_:
+                for c_ in walk_no_nested(f_.node):
+                    if not (isinstance(c_, ast.Call) and (norm(c_.func) == "Unit" or (norm(c_.func) == "cls" and mod_.rel == UO and q_.startswith("Unit.")))):
+                        continue
+                    b_ = bind_call(c_, new, skip_self=True)
+                    if b_.get("base_value") is None:
+                        continue
+                    n_sites += 1
+                    missing = [a_ for a_ in ("base_offset", "dimensions", "registry") if b_.get(a_) is None and a_ not in CTOR_EXCEPT.get(q_, {})]
+                    res.check(not missing, f"ctor-complete:{mod_.rel.split('/')[-1]}:{q_}", f_.where(c_), f"{q_} builds a Unit from an explicit scale but leaves out {missing}: the constructor's default (offset 0.0 / dimensions looked up / default registry) replaces the value of the unit it was derived from - all sibling constructions pass scale, offset, dimensions and registry together", "base_value, base_offset, dimensions and registry", sorted(k for k in b_ if k in ("base_value", "base_offset", "dimensions", "registry")), rid=r1)
+    if n_sites < 6:
+        raise AnalysisError(f"only {n_sites} Unit constructions with an explicit scale found")
+
     # R5: the power laws are computed by sympy on the dimension expressions: (x**a)**b collapses to x**(a*b) for
     # fractional b only when x is known to be positive.  Every base dimension must therefore be a positive Symbol
     # (sibling agreement over the entries of base_dimensions), spelled "(<its name>)"
